@@ -4,6 +4,7 @@ Construction LTS over imaging words (last medium air) x every stop position x {i
 three image-plane positions (paraxial focus and two defocus offsets; real and virtual exit pupils arise).
 Oracle: vmc.ref.opd evaluated on independently traced records (own chief ray, reference exit pupil from vmc.ref.abcd).
 """
+import itertools
 import math
 
 import numpy as np
@@ -60,6 +61,19 @@ def units(tier, variant):
         for s in range(len(w)):
             out.append(dict(word=list(w), stop=s, variant=variant))
     return out
+
+
+class owned_rng:
+    """The harness owns the library's only random source: every generator created without a seed inside the block is
+    seeded 1000, 1001, ... in creation order (distinct streams, same on every run)."""
+
+    def __enter__(self):
+        self.orig = np.random.default_rng
+        count = itertools.count(1000)
+        np.random.default_rng = lambda seed=None: self.orig(next(count) if seed is None else seed)
+
+    def __exit__(self, *a):
+        np.random.default_rng = self.orig
 
 
 def geometric_opd(o, rows_w, Hy, Px, Py, w, xpl_ref):
@@ -171,11 +185,17 @@ def run_unit(unit):
                     part.count('skipped-telecentric-pupil')
                     continue
                 part.count('virtual-exit-pupil' if xpl * tsign > 0 else 'real-exit-pupil')
-                dists = [('hexapolar', 3), ('uniform', 8), ('cross', 9), ('ring', 12)] if w == 0.5876 or short else [('hexapolar', 3)]
+                dists = [('hexapolar', 3), ('uniform', 8), ('cross', 9), ('ring', 12), ('random', 12)] if w == 0.5876 or short else [('hexapolar', 3)]
                 for name, nr in dists:
-                    d = dist_points(name, nr)
-                    Px, Py = np.asarray(d.x, float).copy(), np.asarray(d.y, float).copy()
-                    wf = Wavefront(o, fields=[(0.0, 0.0), (0.0, 0.7), (0.0, 1.0), (0.0, -1.0), (0.0, -0.4)], wavelengths=[w], num_rays=nr, distribution=name)
+                    with owned_rng():
+                        wf = Wavefront(o, fields=[(0.0, 0.0), (0.0, 0.7), (0.0, 1.0), (0.0, -1.0), (0.0, -0.4)], wavelengths=[w], num_rays=nr, distribution=name)
+                    if name == 'random':
+                        # the reported samples are the pupil points the analysis object exposes (drawn once, by name)
+                        Px, Py = np.asarray(wf.distribution.x, float).copy(), np.asarray(wf.distribution.y, float).copy()
+                        part.count('random-distribution-calls')
+                    else:
+                        d = dist_points(name, nr)
+                        Px, Py = np.asarray(d.x, float).copy(), np.asarray(d.y, float).copy()
                     part.transitions += 1
                     part.evals += 1
                     for fi, Hy in enumerate((0.0, 0.7, 1.0, -1.0, -0.4)):       # fields on both sides of the axis
